@@ -16,7 +16,8 @@ CFG = dict(
           dict(test="TestC13Surplus", timeout_quick=200, timeout_thorough=300),
           dict(test="TestC13Crash", timeout_quick=300, timeout_thorough=900),
           dict(test="TestC13Reuse", timeout_quick=200, timeout_thorough=300)],
-    reason_text={"12": "stuck read loop: the read failure was injected, every stream of the scenario is gone, yet at a quiescent point the multiplexer's read loop is still alive: it never notices the transport closing and every call waiting for a reply waits for ever",
+    reason_text={"13": "a stream's RecvMsg reported the clean end io.EOF although no envelope that ends the stream with an OK status (a trailer) had been delivered for its id: the messages behind that point are lost",
+                 "12": "stuck read loop: the read failure was injected, every stream of the scenario is gone, yet at a quiescent point the multiplexer's read loop is still alive: it never notices the transport closing and every call waiting for a reply waits for ever",
                  "1": "the real client's observation differs from every outcome of the Gallina model (Model/Client.v, all orders of internal rules)",
                  "3": "a unary call's result is not what the first delivered envelope carrying its id says",
                  "4": "a stream's messages are not, in order, the bodies of the delivered envelopes carrying its id",
